@@ -368,7 +368,8 @@ func runCase(phase string, i int) worker.Result {
 	for j := 0; j < k; j++ {
 		op := ops[rng.IntN(len(ops))]
 		n := nodes[rng.IntN(len(nodes))]
-		if c.API == "ExtendedCopyGraph" && rng.IntN(2) == 0 {
+		filtered := c.FilterAll || c.FilterAnno != ""
+		if c.API == "ExtendedCopyGraph" && (rng.IntN(2) == 0 || (filtered && rng.IntN(2) == 0)) {
 			// the upward walk: fault the predecessor listing of a node that is walked
 			op = "src.Predecessors"
 			var anc []int
